@@ -20,6 +20,8 @@ from __future__ import annotations
 import datetime as dt
 import pickle
 import random
+
+import numpy as np
 from dataclasses import dataclass, field
 
 from ..core import Case, Prop
@@ -38,6 +40,17 @@ class EqvCase:
     holes: list = field(default_factory=list)   # [(input number, [entity indices that carry NO value in the document])]
     own: dict = field(default_factory=dict)     # {household index: person index}: households that are NOT in the document -- the
                                                 # person is listed in no household and the builder appends a household of its own
+    psit: list = field(default_factory=list)    # situation of each person / household (period spellings differ between situations)
+    gsit: list = field(default_factory=list)
+    absent: list = field(default_factory=list)  # [(input number, [entity indices])]: a variable WITHOUT formula for which these entities
+                                                # declare nothing (or null): they read the default, alone and together
+    direct_mode: str = "manual"                 # direct stream: manual | norole (members_role left to its default) | join (join_with_persons)
+    int_ids: bool = False                       # document keys are Python ints (YAML-style), member lists name them as text
+    short_form: bool = True                     # single household / person / variables-only spellings of a part's document when possible
+    trace: bool = False                         # every simulation of the case runs with trace=True
+    req_seed: int = 0                           # which requests pass their period as text
+    divs: list = field(default_factory=list)    # [(variable, period token)]: calculate_divide, answered after the requests (oracle only)
+    default_tok: str = ""                       # builder.set_default_period(...): values of that period are written bare (no period key)
 
 
 # --------------------------------------------------------------------------------------
@@ -100,17 +113,31 @@ def _gid(e: EqvCase, g: int) -> str:
     return e.pids[own[g]] if g in own else e.gids[g]
 
 
-def document(e: EqvCase, sel, gsel) -> dict:
+def _spell(tok: str, k: int) -> str:
+    """the k-th spelling of a period key (all denote the same period, hence the same input slot)"""
+    u = tok.split("/")[0]
+    canon = str(parse_period_token(tok))
+    alts = ["ETERNITY", "eternity"] if u == "eternity" else [canon, f"{u}:{canon}", f"{u}:{canon}:1"]
+    return alts[k % len(alts)]
+
+
+def document(e: EqvCase, sel, gsel):
     """the situation made of the persons `sel` and the households `gsel`, in that order, as the
-    JSON-like document the web API / YAML tests / `build_from_entities` take.  A household lists
+    JSON-like document the web API / YAML tests / `build_from_dict` take.  A household lists
     ALL the members it has in the merged population (for a closed selection: the kept ones), each
-    under its role.  Households of `e.own` are not written: their person is listed nowhere."""
+    under its role.  Households of `e.own` are not written: their person is listed nowhere.
+    Every situation writes its period keys in its own spelling.
+    -> (document, expected person ids or None, expected household ids)"""
     c = e.case
     own = getattr(e, "own", None) or {}
     roles = list(getattr(c, "roles", None) or [0] * c.nP)
     variant = getattr(c, "role_variant", 0)
+    psit = getattr(e, "psit", None) or [0] * c.nP
+    gsit = getattr(e, "gsit", None) or [0] * c.nG
+    int_ids = getattr(e, "int_ids", False)
     rng = random.Random(e.member_seed)
-    persons = {e.pids[i]: {} for i in sel}
+    key = (lambda x: int(x)) if int_ids else (lambda x: x)
+    persons = {key(e.pids[i]): {} for i in sel}
     households = {}
     for g in gsel:
         if g in own:
@@ -120,27 +147,64 @@ def document(e: EqvCase, sel, gsel) -> dict:
         rng.shuffle(members)
         # the builder gives the k-th person listed under a role with sub-roles the k-th sub-role: flattened order
         for i in sorted(members, key=lambda i: roles[i]) if variant else members:
-            h.setdefault(_role_plural(variant, roles[i]), []).append(e.pids[i])
+            h.setdefault(_role_plural(variant, roles[i]), []).append(str(e.pids[i]))
         if not members and rng.random() < 0.5:
             h["members"] = []
-        households[e.gids[g]] = h
+        households[key(e.gids[g])] = h
     holes = {k: set(idx) for k, idx in e.holes}
+    absent = {k: set(idx) for k, idx in (getattr(e, "absent", None) or [])}
     for k, (v, tok, vals) in enumerate(c.inputs):
         var = c.vars[v]
-        key = str(parse_period_token(tok))
         skip = holes.get(k, ())
-        if var.entity == 0:
-            for i in sel:
-                if i not in skip:
-                    persons[e.pids[i]].setdefault(f"v{v}", {})[key] = _doc_value(var, vals[i])
-        else:
-            for g in gsel:
-                if g not in skip and g not in own:
-                    households[e.gids[g]].setdefault(f"v{v}", {})[key] = _doc_value(var, vals[g])
+        gone = absent.get(k, ())
+        for x, sit, target, ids in ([(i, psit[i], persons, e.pids) for i in sel] if var.entity == 0 else
+                                    [(g, gsit[g], households, e.gids) for g in gsel if g not in own]):
+            if x in skip:
+                continue
+            spelled = _spell(tok, e.member_seed + 7 * sit + k)
+            if x in gone:
+                if (e.member_seed + x + k) % 2:
+                    target[key(ids[x])].setdefault(f"v{v}", {})[spelled] = None      # null: no value
+                continue
+            target[key(ids[x])].setdefault(f"v{v}", {})[spelled] = _doc_value(var, vals[x])
+    dtok = getattr(e, "default_tok", "")
+    if dtok:
+        # an instance that gives a variable for the default period only writes the bare value
+        dkeys = {_spell(dtok, j) for j in range(3)}
+        for inst in list(persons.values()) + list(households.values()):
+            for name, vals in list(inst.items()):
+                if isinstance(vals, dict) and len(vals) == 1 and name.startswith("v"):
+                    (q, x), = vals.items()
+                    if q in dkeys and x is not None and (len(name) + len(q)) % 2:
+                        inst[name] = x
     doc = {"persons": persons, "households": households}
+    pids = [str(e.pids[i]) for i in sel]
+    gids = [_gid(e, g) for g in gsel]
     if not households and rng.random() < 0.8:
         del doc["households"]                    # no household section at all: the builder's default-group path
-    return doc
+    if getattr(e, "short_form", False):
+        r = rng.random()
+        if "households" not in doc and len(persons) == 1 and r < 0.4:
+            # a single person and nothing else: the variables-only spelling ({"v3": {"2018-01": 5}})
+            (only,) = persons.values()
+            # (a null value is ignored in the entity spelling but not accepted by the variables-only one: left out)
+            return {v: ({q: x for q, x in vals.items() if x is not None} if isinstance(vals, dict) else vals) for v, vals in only.items()
+                    if not isinstance(vals, dict) or any(x is not None for x in vals.values())}, None, gids
+        if len(households) == 1 and r < 0.4:
+            (hid, h), = households.items()
+            del doc["households"]
+            doc["household"] = h                 # singular key: the household is called "household"
+            gids = ["household" if x == str(hid) else x for x in gids]
+            if len(persons) == 1 and r < 0.2 and not any("household" == str(q) for q in pids):
+                (pid, pp), = persons.items()
+                del doc["persons"]
+                doc["person"] = pp
+                for lst in h.values():
+                    if isinstance(lst, list):
+                        lst[:] = ["person" if q == str(pid) else q for q in lst]
+                pids = ["person"]
+                gids = ["person" if x == str(pid) else x for x in gids]       # (the household of its own, if it is listed nowhere)
+    return doc, pids, gids
 
 
 def restricted_case(c: rs.SysCase, sel, gsel) -> rs.SysCase:
@@ -152,13 +216,16 @@ def restricted_case(c: rs.SysCase, sel, gsel) -> rs.SysCase:
                       role_variant=getattr(c, "role_variant", 0))
 
 
-def _run_requests(c: rs.SysCase, sim, ctx, gperm=None) -> str:
+def _run_requests(e: EqvCase, sim, ctx, gperm=None) -> tuple:
     """`gperm`: position in the simulation of each household of the selection (the builder appends
     the own households of unlisted persons in set-iteration order; household-level answers are
-    read in the selection's order)"""
+    read in the selection's order).  -> (request answers, calculate_divide answers)"""
+    c = e.case
     ctx.armed.clear()
+    if getattr(e, "trace", False):
+        sim.trace = True
     outs = []
-    for r in c.reqs:
+    for k, r in enumerate(c.reqs):
         if r[0] == "arm":
             ctx.armed.add(r[1]); outs.append("-"); continue
         if r[0] == "disarm":
@@ -166,8 +233,10 @@ def _run_requests(c: rs.SysCase, sim, ctx, gperm=None) -> str:
         kind, v, tok = r
         try:
             p = parse_period_token(tok)
+            if (getattr(e, "req_seed", 0) + k) % 3 == 0:
+                p = str(p)                # the period as text: same request
             res = sim.calculate(f"v{v}", p) if kind == "calc" else sim.calculate_add(f"v{v}", p)
-            if gperm is not None and c.vars[v].entity != 0:
+            if gperm is not None and v < len(c.vars) and c.vars[v].entity != 0:
                 res = res[gperm]
             o = "ok:" + rs.canon_array(res)
         except Exception as exc:          # the implementation's error, classified
@@ -175,8 +244,50 @@ def _run_requests(c: rs.SysCase, sim, ctx, gperm=None) -> str:
         if sim.tracer.stack or sim.invalidated_caches:
             o += "#STATE"
         outs.append(o)
+    divs = []
+    for v, tok in getattr(e, "divs", None) or []:
+        try:
+            p = parse_period_token(tok)
+            res = sim.calculate_divide(f"v{v}", str(p) if (v + getattr(e, "req_seed", 0)) % 2 else p)
+            if gperm is not None and c.vars[v].entity != 0:
+                res = res[gperm]
+            divs.append("ok:" + ",".join(repr(float(x)) for x in np.asarray(res).tolist()))
+        except Exception as exc:
+            divs.append(rs.classify(exc))
     ctx.armed.clear()
-    return ";".join(outs)
+    return ";".join(outs), ";".join(divs)
+
+
+def _set_inputs(part: rs.SysCase, sim, E5):
+    sim.max_spiral_loops = part.msl
+    for v, tok, vals in part.inputs:
+        sim.set_input(f"v{v}", parse_period_token(tok), rs._input_array(part.vars[v], vals, E5))
+    return sim
+
+
+def _build_direct(e: EqvCase, part: rs.SysCase, pids, gids, tbs, E5):
+    """the part as a simulation made by hand: `manual` (counts, members_entity_id, members_role),
+    `norole` (members_role left unset when everybody holds the first role: its default),
+    `join` (SimulationBuilder.declare_person_entity / declare_entity / join_with_persons — only when
+    every household has a member)"""
+    from openfisca_core import simulations
+    mode = getattr(e, "direct_mode", "manual")
+    roles = list(part.roles or [0] * part.nP)
+    if mode == "join" and set(part.mem) == set(range(part.nG)):
+        b = simulations.SimulationBuilder()
+        b.create_entities(tbs)
+        b.declare_person_entity("person", pids)
+        h = b.declare_entity("household", gids)
+        flat = [r.key for r in h.entity.flattened_roles]
+        b.join_with_persons(h, [gids[m] for m in part.mem], roles if e.member_seed % 2 else [flat[r] for r in roles])
+        return _set_inputs(part, b.build(tbs), E5)
+    if mode == "norole" and not any(roles):
+        sim = simulations.Simulation(tbs, tbs.instantiate_entities())
+        sim.persons.count, sim.persons.ids = part.nP, list(pids)
+        sim.household.count, sim.household.ids = part.nG, list(gids)
+        sim.household.members_entity_id = np.array(part.mem, dtype=np.int64)
+        return _set_inputs(part, sim, E5)
+    return rs.build_simulation(part, tbs, E5)
 
 
 def impl(case: Case) -> str:
@@ -185,31 +296,38 @@ def impl(case: Case) -> str:
     e: EqvCase = pickle.loads(bytes.fromhex(case.payload))
     c = e.case
     tbs, ctx, E5 = rs.build_system(c)
-    outs = []
+    outs, douts = [], []
     for kind, sel, gsel in [("whole", list(range(c.nP)), list(range(c.nG)))] + list(e.sels):
+        gperm = None
         if e.direct:
             if not is_closed(c, sel, gsel):
-                outs.append("ERR")
+                outs.append("ERR"); douts.append("")
                 continue
-            part = restricted_case(c, sel, gsel)
-            sim = rs.build_simulation(part, tbs, E5)
+            sim = _build_direct(e, restricted_case(c, sel, gsel), [str(e.pids[i]) for i in sel], [_gid(e, g) for g in gsel], tbs, E5)
         else:
+            doc, pids, canon = document(e, sel, gsel)
             try:
-                sim = SimulationBuilder().build_from_entities(tbs, document(e, sel, gsel))
+                builder = SimulationBuilder()
+                if getattr(e, "default_tok", ""):
+                    builder.set_default_period(str(parse_period_token(e.default_tok)))
+                sim = builder.build_from_dict(tbs, doc)
             except errors.SituationParsingError:
-                outs.append("ERR")
+                outs.append("ERR"); douts.append("")
                 continue
             sim.max_spiral_loops = c.msl
             ids = [str(x) for x in sim.household.ids]
-            canon = [_gid(e, g) for g in gsel]
-            if sorted(ids) != sorted(canon) or [str(x) for x in sim.persons.ids] != [e.pids[i] for i in sel]:
-                outs.append("IDS")               # the builder did not create the entities of the document
+            if pids is None:                     # variables-only document: one anonymous person in a household of its own
+                ok = sim.persons.count == 1 and sim.household.count == 1
+            else:
+                ok = sorted(ids) == sorted(canon) and [str(x) for x in sim.persons.ids] == pids
+                gperm = None if ids == canon else [ids.index(x) for x in canon] if ok else None
+            if not ok:
+                outs.append("IDS"); douts.append("")   # the builder did not create the entities of the document
                 continue
-            gperm = None if ids == canon else [ids.index(x) for x in canon]
-            outs.append(_run_requests(c, sim, ctx, gperm))
-            continue
-        outs.append(_run_requests(c, sim, ctx))
-    return "~".join(outs)
+        o, d = _run_requests(e, sim, ctx, gperm)
+        outs.append(o); douts.append(d)
+    return "~".join(outs) + ("|D:" + "~".join(douts) if getattr(e, "divs", None) else "")
+
 
 
 # --------------------------------------------------------------------------------------
@@ -229,10 +347,11 @@ def _expected_part(merged_res: str, idx: list):
 
 
 def oracle(case: Case, out: str):
-    if not case.claimed or rs.values_too_large(out.replace("~", ";")):
+    if not case.claimed or rs.values_too_large(out.partition("|D:")[0].replace("~", ";")):
         return None
     e: EqvCase = pickle.loads(bytes.fromhex(case.payload))
     c = e.case
+    out, _, dout = out.partition("|D:")
     parts = out.split("~")
     if len(parts) != 1 + len(e.sels):
         return ("harness-shape", f"{len(parts)} answers for {1 + len(e.sels)} simulations")
@@ -268,17 +387,35 @@ def oracle(case: Case, out: str):
                 return (f"{kind}-{cls}",
                         f"request #{k} {r}: merged simulation returned {merged[k]}; read at the {kind} selection "
                         f"persons={sel} households={gsel} that is {want}; the part simulated alone returned {got[k]}")
+    # calculate_divide (oracle only: the quotient is one IEEE division per entity, compared for identity)
+    if dout:
+        dparts = dout.split("~")
+        dm = dparts[0].split(";")
+        for (kind, sel, gsel), part, dpart in zip(e.sels, parts[1:], dparts[1:]):
+            if not is_closed(c, sel, gsel) or part in ("ERR", "IDS"):
+                continue
+            got = dpart.split(";")
+            for k, (v, tok) in enumerate(e.divs):
+                idx = sel if c.vars[v].entity == 0 else gsel
+                want = dm[k]
+                if want.startswith("ok:"):
+                    vals = want[3:].split(",")
+                    want = "ok:" + ",".join(vals[i] for i in idx)
+                if got[k] != want:
+                    return (f"{kind}-divide", f"calculate_divide(v{v}, {tok}): merged simulation returned {dm[k]}; read at the {kind} selection "
+                                              f"persons={sel} households={gsel} that is {want}; the part simulated alone returned {got[k]}")
     return None
 
 
 def canon_equal(case: Case, impl_out: str, model_out: str) -> bool:
+    impl_out = impl_out.partition("|D:")[0]          # the divide answers are for the oracle only
     if rs.values_too_large(impl_out.replace("~", ";")) or rs.values_too_large(model_out.replace("~", ";")):
         return True          # off the exact lattice (numeric policy): not compared
     return impl_out == model_out
 
 
 def nontrivial(case: Case, out: str) -> bool:
-    parts = out.split("~")
+    parts = out.partition("|D:")[0].split("~")
     return len(parts) >= 3 and all("ok:" in p for p in parts[:3])
 
 
@@ -382,7 +519,7 @@ def _reduce_heavy(rng: random.Random, vars_: list, variant=0) -> list:
         return ("c", rng.randint(1, 9))
 
     def digit():
-        return rs.NO_ROLE if rng.random() < 0.6 else rng.randrange(nroles)
+        return rs.NO_ROLE if rng.random() < 0.5 else _digit(rng, variant)
     out = []
     m = len(vars_)
     vars_.append(rs.Var(entity=1, vtype=rng.choice(["int", "float"]), unit="month", dflt=rng.randint(-3, 5),
@@ -405,6 +542,17 @@ def _reduce_heavy(rng: random.Random, vars_: list, variant=0) -> list:
                             formulas=[(1, ("o2", 1, ("o1", 2, ("v", m, "same", False)), person_atom()))]))
         out.append(q)
     return out
+
+
+def _digit(rng: random.Random, variant: int) -> int:
+    """a role digit: a flattened role, sometimes "no filter" (9), with sub-roles sometimes the first top-level role (8)"""
+    nroles = _role_table(variant)[0]
+    r = rng.random()
+    if r < 0.15:
+        return rs.NO_ROLE
+    if variant and r < 0.4:
+        return rs.TOP_ROLE
+    return rng.randrange(nroles)
 
 
 def _role_heavy(rng: random.Random, vars_: list, variant=0) -> list:
@@ -433,15 +581,26 @@ def _role_heavy(rng: random.Random, vars_: list, variant=0) -> list:
     if rng.random() < 0.7:
         g = len(vars_)
         vars_.append(rs.Var(entity=1, vtype="int", unit="month", dflt=0,
-                            formulas=[(1, ("o2", rng.choice([0, 1]), ("o1", 10 + rng.randrange(nroles), person_atom()),
-                                           ("o1", 30 + rng.randrange(nroles), ("c", 0))))]))
+                            formulas=[(1, ("o2", rng.choice([0, 1]), ("o1", 10 + _digit(rng, variant), person_atom()),
+                                           ("o1", 30 + _digit(rng, variant), ("c", 0))))]))
         out.append(g)
     if rng.random() < 0.5:
         g = len(vars_)
         cond = ("o2", rng.choice([4, 5, 6]), person_atom(), ("o1", 2, ("v", h, "same", False)))
         vars_.append(rs.Var(entity=1, vtype=rng.choice(["bool", "int"]), unit="month", dflt=0,
-                            formulas=[(1, ("o1", 40 + rng.randrange(nroles), cond))]))
+                            formulas=[(1, ("o1", 40 + _digit(rng, variant), cond))]))
         out.append(g)
+    if rng.random() < 0.6:
+        # household.project(x, role): what the household hands to the holders of a role only
+        q2 = len(vars_)
+        vars_.append(rs.Var(entity=0, vtype="int", unit="month", dflt=0,
+                            formulas=[(1, ("o2", rng.choice([0, 1]), ("o1", 80 + _digit(rng, variant), ("v", h, "same", False)), person_atom()))]))
+        out.append(q2)
+        if rng.random() < 0.5:
+            g2 = len(vars_)
+            vars_.append(rs.Var(entity=1, vtype="int", unit="month", dflt=0,
+                                formulas=[(1, ("o1", 1, ("o1", 80 + _digit(rng, variant), ("o1", 1, person_atom()))))]))
+            out.append(g2)
     return out
 
 
@@ -535,9 +694,32 @@ def gen_eqv(rng: random.Random, direct=False, faults=True, bad_rate=0.0, unliste
                 inputs.append((r, tok, [rng.randint(1, 40) for _ in range(nG)]))
         inputs = [(v, tok, [vars_[v].dflt if (vars_[v].entity != 0 and g in own) else x for g, x in enumerate(vals)])
                   for v, tok, vals in inputs]
+    # a variable WITHOUT formula for which one situation declares nothing: its entities read the default, alone and together
+    absent = []
+    if not direct:
+        for n_, (v, tok, vals) in enumerate(inputs):
+            if not vars_[v].formulas and rng.random() < 0.3:
+                s_ = rng.randrange(k)
+                idx = [x for x in range(len(vals)) if (psit if vars_[v].entity == 0 else gsit)[x] == s_ and not (vars_[v].entity != 0 and x in own)]
+                if idx:
+                    absent.append((n_, idx))
+                    inputs[n_] = (v, tok, [vars_[v].dflt if x in idx else y for x, y in enumerate(vals)])
     reqs = rs.gen_requests(rng, vars_, rng.randint(3, 8), wrong=0.05, add=0.15)
     for j in extra:
         reqs.insert(rng.randrange(len(reqs) + 1), ("calc", j, rng.choice(rs.MONTHS)))
+    if rng.random() < 0.05:
+        reqs.insert(rng.randrange(len(reqs) + 1), ("calc", len(vars_) + 3, rng.choice(rs.MONTHS)))      # a variable that does not exist
+    # calculate_divide: a yearly amount for one month, a monthly amount for one day (and a refused one: a month variable for a year)
+    divs = []
+    for j, v in enumerate(vars_):
+        if v.vtype in ("int", "float") and rng.random() < 0.25:
+            if v.unit == "year":
+                divs.append((j, rng.choice(rs.MONTHS)))
+            elif v.unit == "month":
+                divs.append((j, rng.choice(rs.DAYS) if rng.random() < 0.8 else rng.choice(rs.YEARS)))
+            elif v.unit == "day":
+                divs.append((j, rng.choice(rs.DAYS)))
+    divs = divs[:3]
     if fault_ids:
         # arm one fault in the middle of the request list, disarm it later, ask again
         fid = rng.choice(fault_ids)
@@ -560,12 +742,36 @@ def gen_eqv(rng: random.Random, direct=False, faults=True, bad_rate=0.0, unliste
     gs = [g for g in range(nG) if gsit[g] == s]
     rng.shuffle(ps); rng.shuffle(gs)
     sels.append(("permuted-part", ps, gs))
-    pids = [f"p{i}" for i in range(nP)]
-    gids = [f"h{g}" for g in range(nG)]
-    if rng.random() < 0.3:                        # ids that do not sort like the indices
-        rng.shuffle(pids); rng.shuffle(gids)
-    e = EqvCase(c, pids, gids, sels, direct=direct, member_seed=rng.randrange(1 << 30), own=own)
-    tags = ["direct" if direct else "builder", f"situations={k}", f"persons={nP}", f"households={nG}"]
+    style = rng.choice(["plain", "plain", "shuffled", "int", "shared"])
+    int_ids = False
+    if style == "int":                            # Python int keys (YAML-style documents); households may reuse the persons' numbers
+        int_ids = True
+        pids = [str(x) for x in rng.sample(range(1, 40), nP)]
+        gids = [str(x) for x in rng.sample(range(100, 140) if own else range(1, 40), nG)]
+    elif style == "shared" and not own:           # the same names on both sides: person "x1" and household "x1" are different things
+        pids = [f"x{i}" for i in range(nP)]
+        gids = [f"x{g}" for g in range(nG)]
+        rng.shuffle(gids)
+    else:
+        pids = [f"p{i}" for i in range(nP)]
+        gids = [f"h{g}" for g in range(nG)]
+        if style != "plain":                      # ids that do not sort like the indices
+            rng.shuffle(pids); rng.shuffle(gids)
+    e = EqvCase(c, pids, gids, sels, direct=direct, member_seed=rng.randrange(1 << 30), own=own, psit=psit, gsit=gsit, absent=absent,
+                direct_mode=rng.choice(["manual", "norole", "join", "join"]), int_ids=int_ids, short_form=rng.random() < 0.7,
+                trace=rng.random() < 0.2, req_seed=rng.randrange(3), divs=divs,
+                default_tok=rng.choice([i[1] for i in inputs if not i[1].startswith("eternity")] or [""]) if rng.random() < 0.3 else "")
+    tags = ["direct" if direct else "builder", f"situations={k}", f"persons={nP}", f"households={nG}", f"ids={style}"]
+    if direct:
+        tags.append(f"direct-mode={e.direct_mode}")
+    if absent:
+        tags.append("input-absent-in-one-situation")
+    if divs:
+        tags.append("calculate_divide")
+    if e.trace:
+        tags.append("trace")
+    if e.default_tok:
+        tags.append("default-period")
     if len(set(mem)) < nG:
         tags.append("empty-household")
         if (nG - 1) not in mem:
